@@ -75,12 +75,18 @@ Proof.
   assert (Hdm : n0 = sz B * q + r) by (apply N.div_mod; exact HB0).
   assert (Hr : r < sz B) by (apply N.mod_lt; exact HB0).
   set (c := if negb (r =? 0) then 1 else 0).
-  assert (Hc : (if negb (r =? 0) then Ret 1 else Ret 0) = Ret c) by (unfold c; destruct (negb (r =? 0)); reflexivity).
-  try rewrite Hc. fold c. cbn [bind].      (* `if r != 0 {1} else {0}` or `(r != 0) as usize` *)
   assert (Hcle : c <= 1) by (unfold c; destruct (negb (r =? 0)); lia).
   assert (Hq : q <= n0) by (unfold q; apply N.div_le_upper_bound; [exact HB0 | nia]).
-  unfold add_m. assert (Hadd : (q + c <? USIZE) = true) by (apply N.ltb_lt; big_consts; lia).
-  rewrite Hadd. cbn [bind].
+  (* however the code spells the rounded-up count (`+ if r != 0 {1} else {0}`, `+ (r != 0) as usize`,
+     `if r == 0 { q } else { q + 1 }`, through named q and r or not): it evaluates to q + c *)
+  fold c.
+  match goal with |- bind ?e _ = _ =>
+    assert (He : e = Ret (q + c)) by
+      (unfold add_m, c; repeat (cbn [bind negb]; match goal with |- context [if ?b then _ else _] => destruct b eqn:? end);
+       cbn [bind negb]; b2p; big_consts; try reflexivity; try (exfalso; lia); try (f_equal; lia));
+    rewrite He
+  end.
+  cbn [bind].
   set (n := q + c).
   assert (Hnb : n0 <= n * sz B /\ n * sz B < n0 + sz B).
   { unfold n, c. destruct (r =? 0) eqn:Er; cbn [negb].
@@ -113,14 +119,21 @@ Proof.
     rewrite Hx in E. discriminate.
   - unfold Gen.Alloc.pod_collect_to_vec, size_of_val_slice.
     destruct (sz B =? 0) eqn:HB0; [exact I|]. apply N.eqb_neq in HB0.
-    unfold div_m, rem_m. apply N.eqb_neq in HB0. rewrite HB0. apply N.eqb_neq in HB0. cbn [bind].
-    destruct (negb (slen s * sz A mod sz B =? 0)); cbn [bind]; unfold add_m;
-      match goal with |- context [if ?b then _ else _] => destruct b end; cbn [bind]; try exact I;
-      unfold vec_zeroed; match goal with |- context [if ?b then _ else _] => destruct b eqn:Ev end; cbn [bind]; try exact I.
-    all: match goal with |- context [Root.cast_slice ?E ?T u8_ty ?x] =>
-           destruct (cast_slice_to_bytes E T x HA Hs) as (v & Hv & _ & Hvl); rewrite Hv; cbn [bind] end.
-    all: match goal with |- context [Root.cast_slice_mut ?E ?T u8_ty (bvec_slice ?T (mkBV ?n ?zs))] =>
-           destruct (cast_slice_mut_to_bytes E T (bvec_slice T (mkBV n zs)) HB
-                       (bvec_slice_valid T n zs HB HB0 ltac:(apply N.leb_le; exact Ev))) as (w & Hw); rewrite Hw; cbn [bind] end.
-    all: unfold bvec_copy_prefix; repeat match goal with |- context [if ?b then _ else _] => destruct b end; exact I.
+    destruct (cast_slice_to_bytes ENV A s HA Hs) as (v & Hv & _ & Hvl).
+    unfold div_m, rem_m, add_m, vec_zeroed, bvec_copy_prefix.
+    (* walk down the function: split every conditional, the two casts to bytes succeed, whatever is left
+       is a return or a panic *)
+    repeat (cbn [bind bv_len bv_bytes negb];
+      first
+        [ exact I
+        | rewrite Hv
+        | match goal with
+          | Hz : (?n * sz ?T <=? ISIZE_MAX) = true
+            |- context [Root.cast_slice_mut ?E ?T u8_ty (bvec_slice ?T (mkBV ?n ?zs))] =>
+              let w := fresh "w" in let Hw := fresh "Hw" in
+              destruct (cast_slice_mut_to_bytes E T (bvec_slice T (mkBV n zs)) HB
+                          (bvec_slice_valid T n zs HB HB0 ltac:(apply N.leb_le; exact Hz))) as (w & Hw);
+              rewrite Hw
+          end
+        | match goal with |- context [if ?b then _ else _] => destruct b eqn:? end ]).
 Qed.
